@@ -174,7 +174,7 @@ def oracle_split(case, lines, runner=None):
     for n in r1.notes:
         if n[0] == 'until-time':
             _, t, t0, now = n
-            if not (now == t or now == math.nextafter(t, math.inf) or now == math.nextafter(t, -math.inf)):
+            if now != t:
                 fails.append({'what': f'run(until={t}) returned with now={now}', 'signature': 'until-time-now'})
         if n[0] == 'until-event':
             if not n[1]:
